@@ -47,7 +47,7 @@ def leaf_has_op(prog) -> bool:
     return any(ins["op"] != "seed" for ins in prog)
 
 
-STD_KEYS = ("act", "prop", "args", "out", "res", "digests", "targets", "opts", "ms", "kept", "note")
+STD_KEYS = ("act", "prop", "args", "out", "res", "digests", "targets", "after", "opts", "ms", "kept", "note")
 
 
 def reexecute(trace: dict, tid: str = None, prop: str = None, variant: int = 0) -> dict:
